@@ -163,6 +163,39 @@ def keyFault (e : Env) (name : Name) : Option State :=
     if p.isPrefixOf (hd.dg e.h name) then some { st with dir := .hamt { hd with shard := hd.shard.loadTo p } } else none
   | _, _ => none
 
+/-- `AddChild` / `RemoveChild` of the auto-switching directory while a sub-shard block off the key's path is
+unavailable: `needsToSwitchToBasicDir` fails when it has to enumerate (lazy link count, size gate), and a
+decided HAMT → basic conversion fails in `switchToBasic`'s `ForEachLink` (which has by then loaded and
+stripped what precedes the missing sub-shard).  `none`: the operation does not touch the missing block. -/
+def dynFault (e : Env) (st : State) (hd : Hamt) (p : List Nat) (name : Name) (add : Option Lnk) : Option State :=
+  if !st.dyn || hd.s.effThr e.g = 0 then none
+  else
+    let ft := hd.findTop e.h name
+    let hdF : Hamt := { hd with shard := ft.1 }
+    let old : Option SLnk := match ft.2 with | .found s => some s | _ => none
+    if hdF.s.maxLinks > 0 ∧ hdF.total = (-1 : Int) then some { st with dir := .hamt hdF }     -- countLinks fails
+    else
+      let op : Int := (match old with
+          | some o => - hdF.linkSizeFor e.g (storedLen hdF.width name o.pfx) o.lnk
+          | none => 0)
+        + (match add with
+          | some l => hdF.linkSizeFor e.g (nameLen name) l
+          | none => 0)
+      if hdF.s.effMode e.g ≠ 2 ∧ hdF.chg + op < 0 then some { st with dir := .hamt hdF }        -- sizeBelowThreshold fails
+      else
+        match hdF.gateAfterFind e.g name add old with
+        | .yes => some { st with dir := .hamt { hdF with shard := hdF.shard.stripTo p } }       -- switchToBasic fails
+        | _ => none
+
+/-- fault-aware wrapper of a keyed mutation: `some st'` = the operation fails with `fault` leaving `st'` -/
+def opFault (e : Env) (name : Name) (add : Option Lnk) : Option State :=
+  match keyFault e name with
+  | some st' => some st'
+  | none =>
+    match activeFault e, e.st with
+    | some (hd, p), some st => dynFault e st hd p name add
+    | _, _ => none
+
 def showPath (p : List Nat) : String := ".".intercalate (p.map toString)
 
 def step (e : Env) (line : String) : Env × String :=
@@ -179,6 +212,18 @@ def step (e : Env) (line : String) : Env × String :=
       let wh := if paths.isEmpty then "-" else showPath (miss.getD [])
       ({ e with st := some st', missing := miss, cfg := { e.cfg with kind := "dyn", maxLinks := 0, fanout := 0, pmode := none, pthr := 0 } },
         s!"ok fault={wh} | {showState st' false}")
+  | ["fault", k] =>
+    match e.st with
+    | none => (e, "bad-op")
+    | some st =>
+      let paths := match st.dir with | .hamt hd => hd.shard.subPaths | .basic _ => []
+      let miss := if paths.isEmpty then e.missing else paths[k.toNat?.getD 0 % paths.length]?
+      let wh := if paths.isEmpty then "-" else showPath (miss.getD [])
+      ({ e with missing := miss }, s!"ok fault={wh}")
+  | ["unfault"] =>
+    match e.st with
+    | none => (e, "bad-op")
+    | some _ => ({ e with missing := none }, "ok")
   | ["cfg", thr, mode, defw, _] =>
     ({ e with g := { thr := thr.toInt?.getD 0, mode := mode.toNat?.getD 0, defWidth := defw.toInt?.getD 256 }, tbl := [], st := none, missing := none }, "ok")
   | ["new", kind, ml, fan, pm, pthr, stm, sec, ns, b] =>
@@ -192,7 +237,7 @@ def step (e : Env) (line : String) : Env × String :=
     | none => (e, "bad-op")
     | some st =>
       let e := setTbl e (nameOf name) hash
-      match keyFault e (nameOf name) with
+      match opFault e (nameOf name) (some { cid := cid, clen := clen.toNat?.getD 0, size := tsize.toNat?.getD 0 }) with
       | some st' => ({ e with st := some st' }, s!"fault | {showState st' false}")
       | none =>
       let r := addChild e.h e.g st (nameOf name) { cid := cid, clen := clen.toNat?.getD 0, size := tsize.toNat?.getD 0 }
@@ -202,7 +247,7 @@ def step (e : Env) (line : String) : Env × String :=
     | none => (e, "bad-op")
     | some st =>
       let e := setTbl e (nameOf name) hash
-      match keyFault e (nameOf name) with
+      match opFault e (nameOf name) none with
       | some st' => ({ e with st := some st' }, s!"fault | {showState st' false}")
       | none =>
       let r := removeChild e.h e.g st (nameOf name)
